@@ -1015,7 +1015,7 @@ func FirstCall(fn *ssa.Function, pred func(*ssa.Call) bool, depth int) *ssa.Call
 			if pred(c) {
 				return c
 			}
-			if cal := c.Call.StaticCallee(); cal != nil && cal != fn && cal.Pkg == fn.Pkg && len(cal.Blocks) > 0 {
+			if cal := c.Call.StaticCallee(); cal != nil && cal != fn && sameModule(cal, fn) && len(cal.Blocks) > 0 {
 				if r := FirstCall(cal, pred, depth+1); r != nil {
 					return r
 				}
@@ -1048,4 +1048,20 @@ func WalkReached(top *CEResult, f func(act *CEResult, in ssa.Instruction)) {
 		}
 	}
 	walk(top)
+}
+
+// sameModule: both functions are declared in packages whose import paths share their first three elements
+// (host/owner/repository).
+func sameModule(a, b *ssa.Function) bool {
+	if a.Pkg == nil || b.Pkg == nil {
+		return false
+	}
+	pre := func(p string) string {
+		parts := strings.Split(p, "/")
+		if len(parts) > 3 {
+			parts = parts[:3]
+		}
+		return strings.Join(parts, "/")
+	}
+	return pre(a.Pkg.Pkg.Path()) == pre(b.Pkg.Pkg.Path())
 }
